@@ -120,7 +120,8 @@ def make_value(tag: int, n: int) -> bytes:
     return bytes(((tag * 37 + i * 7 + (i >> 8) * 13 + 1) & 0xFF) for i in range(n))
 
 
-def gen_db(rng: random.Random, mtu: int, max_services=6, allow_unregistered=True, props_pool=None) -> rg.Db:
+def gen_db(rng: random.Random, mtu: int, max_services=6, allow_unregistered=True, props_pool=None,
+           all_primary=False) -> rg.Db:
     pool: list = []
     n = rng.choice([0, 1, 1, 2, 2, 3, 3, 4, 5, 6])
     n = min(n, max_services)
@@ -145,7 +146,7 @@ def gen_db(rng: random.Random, mtu: int, max_services=6, allow_unregistered=True
         if services and rng.random() < 0.45:
             k = rng.randint(1, min(3, len(services)))
             includes = sorted(rng.sample(range(len(services)), k))
-        primary = rng.random() < 0.75
+        primary = rng.random() < 0.75 or all_primary
         services.append(rg.Svc(gen_uuid(rng, pool), primary, includes, chars))
     # which services are handed to add_service(): all, unless `unregistered` leaves out one that is
     # included by a later service (it then gets registered through the include)
@@ -322,11 +323,10 @@ async def explore(r: R, client, db: rg.Db, objs, rng: random.Random, mtu: int, t
     # 1. primary services
     ok, services = await call(r, f'{k_disc}/services{cls}', client.discover_services())
     if not ok:
-        return
+        return False
     got = [(s.handle, s.end_group_handle, proxy_uuid(s.uuid)) for s in services]
     exp = db.primaries()
     bits = [rg.width(s.uuid) for s in sorted(db.services, key=lambda s: s.handle) if s.placed and s.primary]
-    tree_ok = cmp_list(r, f'{k_disc}/services{cls}', got, exp, ('handle', 'end-handle', 'uuid'), ctx, bits)
     # GATT structural rule, independent of where an unregistered include is placed:
     # service definitions never overlap
     r.ev('oracle_evals')
@@ -334,7 +334,36 @@ async def explore(r: R, client, db: rg.Db, objs, rng: random.Random, mtu: int, t
     for a, b in zip(spans, spans[1:]):
         if b[0] <= a[1]:
             r.bad(f'{k_disc}/services/overlapping-ranges{cls}', f'services {a} and {b} overlap; {ctx()}')
+            if cls:
+                return False
             break
+    if cls:
+        # one key for this class: every handle after a misplaced definition differs, so the
+        # whole attribute table is compared first and nothing else is judged when it is off
+        r.ev('tree_checks')
+        r.ev('oracle_evals')
+        ok, attrs = await call(r, f'{k_disc}/layout{cls}', client.discover_attributes())
+        if not ok:
+            return False
+        a_got = [(a.handle, proxy_uuid(a.type)) for a in attrs]
+        decl_ok = True
+        if got == exp and a_got == db.all_attributes():
+            # same types at the same handles: the declarations must also be the expected services
+            for sv in db.services:
+                if sv.placed:
+                    ok, v = await call(r, f'{k_disc}/layout{cls}', client.read_value(sv.handle))
+                    if not ok or bytes(v) != rg.pdu_uuid(sv.uuid):
+                        decl_ok = False
+        if got != exp or a_got != db.all_attributes() or not decl_ok:
+            r.bad(f'{k_disc}/layout{cls}',
+                  f'primary services got {[(h, e) for h, e, _u in got]} expected {[(h, e) for h, e, _u in exp]}; '
+                  f'service declarations found at {[h for h, t in a_got if t in (rg.u128(rg.T_PRIMARY), rg.u128(rg.T_SECONDARY))]} '
+                  f'expected at {[s.handle for s in sorted(db.services, key=lambda s: s.handle) if s.placed]}; {ctx()}')
+            return False
+        tree_ok = True
+        cls = ''    # the layout is as expected: from here on the class does not matter
+    else:
+        tree_ok = cmp_list(r, f'{k_disc}/services', got, exp, ('handle', 'end-handle', 'uuid'), ctx, bits)
     if not tree_ok:
         services = []
 
@@ -516,6 +545,7 @@ async def explore(r: R, client, db: rg.Db, objs, rng: random.Random, mtu: int, t
             r.ev('read_checks_long')
         if ok:
             r.check(bytes(v) == new, key, lambda: f'handle {h}: read {len(v)} bytes, current value has {len(new)}; {ctx()}')
+    return tree_ok
 
 
 class Ctx:
@@ -569,7 +599,7 @@ async def db_case(case, r: R):
             r.check(got == mtu and cconn.att_mtu == mtu and sconn.att_mtu == mtu, 'mtu/agreement/fixed',
                     f'client asked {c_mtu}, server max {s_mtu}: request_mtu returned {got}, client bearer '
                     f'{cconn.att_mtu}, server bearer {sconn.att_mtu}, expected {mtu}')
-    await explore(r, peer.gatt_client, db, objs, rng, mtu, '', ctx, True)
+    tree_ok = await explore(r, peer.gatt_client, db, objs, rng, mtu, '', ctx, True)
     await rig_.quiesce()
     wire.sync()
     fixed = wire.att.fixed(1, cconn.handle)
@@ -597,7 +627,8 @@ async def db_case(case, r: R):
                         f'enhanced bearer with MTU {ec_mtu} (client) / {es_mtu} (server): ATT_MTU must be {e_mtu}; '
                         f'client bearer says {ecl.mtu}, server bearer says {s_att}')
                 ectx = Ctx(rig_, desc + f' eatt(c={ec_mtu},s={es_mtu},mps={e_mps})')
-                await explore(r, ecl, db, objs, rng, e_mtu, '/eatt', ectx, ci == 0)
+                if tree_ok:
+                    await explore(r, ecl, db, objs, rng, e_mtu, '/eatt', ectx, ci == 0)
     await rig_.quiesce()
     wire.sync()
     # what the wire looked like (non-triviality + evidence)
@@ -664,7 +695,7 @@ async def notif_case(case, r: R):
     es_mtu = rng.choice(EATT_MTUS)
     ref_mtu = rng.choice([23, s_mtu, min(es_mtu, 517)])
     db = gen_db(rng, ref_mtu, max_services=2, allow_unregistered=False,
-                props_pool=[0x10, 0x12, 0x20, 0x22, 0x30, 0x30, 0x32, 0x3A, 0x02])
+                props_pool=[0x10, 0x12, 0x20, 0x22, 0x30, 0x30, 0x32, 0x3A, 0x02], all_primary=True)
     subs = [c for s in db.services if s.placed for c in s.chars]
     if not any(c.cccd for c in subs):
         # make sure there is something to subscribe to
@@ -987,6 +1018,7 @@ class Adversary:
         self.first = None
         self.s0 = None
         self.ops = set()
+        self.variant = rng.randint(0, 3)
 
     def value_for(self, h: int) -> bytes:
         if self.proc == 'discover_included_services':
@@ -1058,7 +1090,7 @@ class Adversary:
         if st == 'zero-handle':
             return self.valid(op, [0, 0], end_of=lambda h: 0)
         if st == 'zero-length':
-            v = k % 4
+            v = (self.variant + k - 1) % 4
             if op == rg.OP_READ_BY_GROUP_REQ:
                 return [bytes([0x11, 0]) + bytes(12), bytes([0x11, 4]) + struct.pack('<HHHH', s, s, s + 1, s + 1),
                         bytes([0x11, 0]), bytes([0x11, 1]) + bytes(6)][v]
